@@ -430,14 +430,13 @@ pub fn run(thorough: bool) -> i32 {
     let obt_bases: Vec<Case> = bases.iter().enumerate().filter(|(i, b)| b.stream == 0 && (thorough || i % 3 == 0)).map(|(_, b)| { let mut c = b.clone(); c.obt = true; c }).collect();
     bases.extend(obt_bases);
     let nbase = bases.len();
-    // one deviation: removal after every packet index, with and without immediate stop
-    let mut cases = bases.clone();
-    for (bi, b) in bases.iter().enumerate() {
-        if !thorough && bi % 5 != 0 {
-            continue;
-        }
-        if b.cenc != 0 {
-            continue;
+    // one deviation: removal after every packet index, with every immediate-stop setting, under both publish
+    // modes. The deviations of a base session are generated and run inside its worker (the full case list of the
+    // thorough tier does not fit in memory as a vector).
+    let deviations = move |bi: usize, b: &Case| -> Vec<Case> {
+        let mut v = Vec::new();
+        if (!thorough && bi % 5 != 0) || b.cenc != 0 || b.obt {
+            return v;
         }
         let t = (b.len + b.oti.e as usize - 1) / b.oti.e as usize;
         let per_transfer = t + (b.oti.parity as usize) * ((t + b.oti.b as usize - 1) / (b.oti.b as usize).max(1));
@@ -447,28 +446,48 @@ pub fn run(thorough: bool) -> i32 {
                 let mut c = b.clone();
                 c.remove_at = Some(i);
                 c.immediate_stop = imm;
-                cases.push(c.clone());
+                v.push(c.clone());
                 if i <= 6 || thorough {
                     c.obt = true;
-                    cases.push(c);
+                    v.push(c);
                 }
             }
         }
-    }
-    let cases = Arc::new(cases);
+        v
+    };
+    let bases = Arc::new(bases);
+    let bases2 = bases.clone();
     let res = par_map_wd(
-        cases.clone(),
-        Duration::from_secs(30),
-        |_, c| {
+        bases.clone(),
+        Duration::from_secs(300),
+        move |bi, b| {
             let mut g = G::default();
-            let v = run_case(c, &mut g);
-            (v, g)
+            let mut found: Vec<(Case, String, String)> = Vec::new();
+            let mut n = 0u64;
+            let mut distinct = 0u64;
+            let mut last: Option<Case> = None;
+            for c in std::iter::once(b.clone()).chain(deviations(bi, b)) {
+                let before = g.transfers_checked;
+                n += 1;
+                if let Some((key, what)) = run_case(&c, &mut g) {
+                    if !found.iter().any(|f| f.1 == key) {
+                        found.push((c.clone(), key, what));
+                    }
+                }
+                if g.transfers_checked > before {
+                    distinct += 1;
+                }
+                last = Some(c);
+            }
+            (found, g, n, distinct, last)
         },
-        |_, c| (Some((format!("C08/hang/{:?}", c.oti.scheme), "session did not finish in 30 s".to_string())), G::default()),
+        move |bi, _| (vec![(bases2[bi].clone(), format!("C08/hang/{:?}", bases2[bi].oti.scheme), "the sessions of this base configuration did not finish in 300 s".to_string())], G::default(), 0, 0, None),
     );
     let mut g = G::default();
     let mut distinct = 0u64;
-    for (c, (v, gg)) in cases.iter().zip(res) {
+    let mut ncases = 0u64;
+    let mut last_case: Option<Case> = None;
+    for (found, gg, n, d, last) in res {
         g.transfers_checked += gg.transfers_checked;
         g.window_multi_with_parity += gg.window_multi_with_parity;
         g.removal_first_transfer += gg.removal_first_transfer;
@@ -476,30 +495,34 @@ pub fn run(thorough: bool) -> i32 {
         g.packets += gg.packets;
         g.b_flags += gg.b_flags;
         g.refused += gg.refused;
-        if gg.transfers_checked > 0 {
-            distinct += 1;
+        distinct += d;
+        ncases += n;
+        if last.is_some() {
+            last_case = last;
         }
-        if let Some((key, what)) = v {
-            rep.add(Violation { key, what, case: json!({"check": "stream", "case": serde_json::to_value(c).unwrap()}) });
+        for (c, key, what) in found {
+            rep.add(Violation { key, what, case: json!({"check": "stream", "case": serde_json::to_value(&c).unwrap()}) });
         }
     }
     rep.cov("states", distinct);
     rep.cov("transitions", g.packets);
-    rep.cov("traces_validated_against_impl", cases.len() as u64);
-    rep.cov("evaluations", cases.len() as u64);
+    rep.cov("traces_validated_against_impl", ncases);
+    rep.cov("evaluations", ncases);
     rep.cov("distinct_nontrivial", distinct);
     rep.cov("explanation", "states = distinct sessions in which at least one complete transfer was checked symbol by symbol; transitions = packets read from the real Sender and decoded by rfc.rs; every session is an execution of the implementation itself");
     rep.cov("exhaustive", true);
     rep.cov("base_sessions", nbase as u64);
-    rep.cov("removal_sessions", (cases.len() - nbase) as u64);
+    rep.cov("removal_sessions", ncases - nbase as u64);
     rep.cov("transfers_checked", g.transfers_checked);
     rep.cov("close_object_flags_seen", g.b_flags);
     rep.cov("refused_by_add_object", g.refused);
     rep.guard("window_with_2_open_blocks_and_parity", g.window_multi_with_parity);
     rep.guard("removal_inside_first_transfer", g.removal_first_transfer);
     rep.guard("removal_inside_later_transfer", g.removal_later_transfer);
-    rep.sample(serde_json::to_value(&cases[nbase / 2]).unwrap());
-    rep.sample(serde_json::to_value(&cases[cases.len() - 1]).unwrap());
+    rep.sample(serde_json::to_value(&bases[nbase / 2]).unwrap());
+    if let Some(c) = &last_case {
+        rep.sample(serde_json::to_value(c).unwrap());
+    }
     rep.assume("transfers are delimited by the Subscriber Start/StopTransfer events; a transfer cut by a forced stop (object removed while immediate stop is allowed or after a first complete transfer) is exempt from the completeness clause, as the property states");
     rep.finish()
 }
